@@ -102,10 +102,8 @@ class Hist(object):
         def both(fr, fm):
             try:
                 rr = ('ok', fr())
-            except (TypeError, IndexError, ValueError, KeyError) as e:
-                rr = ('raises', type(e).__name__, describe_exc(e))
             except Exception as e:  # noqa
-                rr = ('raises', type(e).__name__, describe_exc(e))
+                rr = ('raises', type(e).__name__, describe_exc(e), tuple(c.__name__ for c in type(e).__mro__))
             try:
                 mm = ('ok', fm())
             except (TypeError, IndexError, ValueError) as e:
@@ -215,7 +213,7 @@ class Hist(object):
             self.v2 = str(self.g.version).startswith(('2', '1'))
         else:
             raise ValueError(op)
-        if real[0] != model[0] or (real[0] == 'raises' and real[1] != model[1]) or (real[0] == 'ok' and real[1] != model[1]):
+        if real[0] != model[0] or (real[0] == 'raises' and model[1] not in real[3]) or (real[0] == 'ok' and real[1] != model[1]):
             self.fail('op-outcome', step, 'op %r: list model %r, grid %r' % (op, model, real[:3]), kind)
         if real[0] == 'raises':
             self.flags.add('refused')
